@@ -5,6 +5,7 @@ import DepsDev.Proofs.C03L2GoodCargoA
 import DepsDev.Proofs.C03L2GoodCargoB
 import DepsDev.Proofs.C03L2Ref
 import DepsDev.Proofs.C03L2Ast
+import DepsDev.Proofs.C03L2Check
 
 /-!
 # C03, layers L2 and L3 — AND lists, OR lists, multi-comparator requirements
@@ -227,5 +228,133 @@ theorem cargo_release_match (cs : List Comparator) (hne : cs ≠ []) (hdom : ∀
   obtain ⟨S, e, -, -, hm⟩ := cargo_release_partial cs hne hdom hstar x hx
   simp only [astMatch, e, bind, Outcome.bind]
   exact hm
+
+/-! ## Token level: through `ParseConstraint` and `Constraint.Match` -/
+
+theorem renderVer_eq (v : SemVerAst) : renderVer v = verText v := by
+  unfold renderVer verText renderPre
+  congr 2
+
+/-- `Constraint.Match` of an accepted npm/Cargo constraint on a text that parses to `v`. -/
+theorem matchStr_of_parse {sys : System} (hsys : sys = .npm ∨ sys = .cargo) {c : Constraint} (hc : c.sys = sys)
+    {cand : Bytes} {v : Version} (hp : parse sys cand = .ok v) :
+    c.matchStr cand = c.set.matchVersion v false := by
+  unfold Constraint.matchStr Constraint.matchV
+  rw [hc, hp]
+  rcases hsys with rfl | rfl <;> rfl
+
+/-- **npm, release candidates, token level** (partial theorem). If the tokeniser splits the
+requirement text `req` into the tokens of the AST `r` (`LexOr`; decided by `lexOrB` for any concrete
+text) and `Parse` maps the candidate text to the candidate's embedding (`parse_verText` proves this
+for every canonical candidate text), then `ParseConstraint` accepts `req` and `Match` answers
+`semver.satisfies`. Missing for `C03_npm_partial`: `LexOr .npm r (renderNpm r)` for ALL `r` (the
+tokeniser and `Parse` on rendered partial operands), hyphen alternatives, prerelease candidates. -/
+theorem npm_release_tokens_partial (r : List (List Comparator)) (hne : r ≠ []) (hnil : ∀ cs ∈ r, cs ≠ [])
+    (hdom : ∀ cs ∈ r, ∀ c ∈ cs, L1Dom c) (x : SemVerAst) (hx : RelCand x) (req cand : Bytes)
+    (hreq : Bytes.trimSpace req ≠ []) (hlex : LexOr .npm r (Bytes.trimSpace req))
+    (hcand : parse .npm cand = .ok (embedVer .npm x)) :
+    Agree .npm req cand (NpmRange.satisfies (r.map Alt.comps) x) ∧ NotRejected .npm req := by
+  obtain ⟨S, hS, -, -, hm⟩ := npm_release_partial r hne hnil hdom x hx
+  obtain ⟨c, hc, hset, hsys, -⟩ := parseConstraint_tokens .npm (Or.inl rfl) r req hreq hlex S hS
+  refine ⟨?_, by unfold NotRejected; rw [hc]; rfl⟩
+  intro c' hc'
+  rw [hc] at hc'
+  injection hc' with hc'
+  subst hc'
+  rw [matchStr_of_parse (Or.inl rfl) hsys hcand, hset, hm]
+
+/-- **Cargo, release candidates, token level** (partial theorem). -/
+theorem cargo_release_tokens_partial (cs : List Comparator) (hne : cs ≠ []) (hdom : ∀ c ∈ cs, L1Dom c)
+    (hstar : ∀ c ∈ cs, c.p.nums ≠ [.x] ∧ c.p.nums ≠ [.x, .x] ∧ c.p.nums ≠ [.x, .x, .x])
+    (x : SemVerAst) (hx : RelCand x) (req cand : Bytes)
+    (hreq : Bytes.trimSpace req ≠ []) (hlex : LexOr .cargo [cs] (Bytes.trimSpace req))
+    (hcand : parse .cargo cand = .ok (embedVer .cargo x)) :
+    Agree .cargo req cand (CargoReq.matches [.comps cs] x) ∧ NotRejected .cargo req := by
+  obtain ⟨S, hS, -, -, hm⟩ := cargo_release_partial cs hne hdom hstar x hx
+  obtain ⟨c, hc, hset, hsys, -⟩ := parseConstraint_tokens .cargo (Or.inr rfl) [cs] req hreq hlex S hS
+  refine ⟨?_, by unfold NotRejected; rw [hc]; rfl⟩
+  intro c' hc'
+  rw [hc] at hc'
+  injection hc' with hc'
+  subst hc'
+  rw [matchStr_of_parse (Or.inr rfl) hsys hcand, hset, hm]
+
+/-- The candidate's text: for every release candidate, `Parse (renderVer x)` is the embedding. -/
+theorem parse_renderVer_release (sys : System) (hsys : sys = .npm ∨ sys = .cargo) (x : SemVerAst) (hx : RelCand x) :
+    parse sys (renderVer x) = .ok (embedVer sys x) := by
+  rw [renderVer_eq]
+  refine parse_verText sys ?_ ?_ x hx.major hx.minor hx.patch ?_
+  · rcases hsys with rfl | rfl <;> decide
+  · rcases hsys with rfl | rfl <;> decide
+  · intro i hi; rw [hx.rel] at hi; cases hi
+
+/-! ## Non-vacuity: the hypotheses hold for concrete requirements, on the string level -/
+
+/-- `>=1.2.3 <2 || ^0.3` -/
+def ex_npm : List (List Comparator) :=
+  [[⟨.ge, ⟨[.n 1, .n 2, .n 3], []⟩⟩, ⟨.lt, ⟨[.n 2], []⟩⟩], [⟨.caret, ⟨[.n 0, .n 3], []⟩⟩]]
+
+/-- `>=1.2.3-rc.1, <1.4, 1.x` -/
+def ex_cargo : List Comparator :=
+  [⟨.ge, ⟨[.n 1, .n 2, .n 3], [.alnum "rc", .num 1]⟩⟩, ⟨.lt, ⟨[.n 1, .n 4], []⟩⟩, ⟨.none, ⟨[.n 1, .x], []⟩⟩]
+
+theorem ex_npm_dom : ∀ cs ∈ ex_npm, ∀ c ∈ cs, L1Dom c := by
+  intro cs hcs c hc
+  simp only [ex_npm, List.mem_cons, List.not_mem_nil, or_false] at hcs
+  rcases hcs with rfl | rfl
+  · simp only [List.mem_cons, List.not_mem_nil, or_false] at hc
+    rcases hc with rfl | rfl
+    · exact ⟨TShape.n3 1 2 3 (by decide) (by decide) (by decide), by simp, by simp⟩
+    · exact ⟨TShape.n1 2 (by decide), by simp, by simp⟩
+  · simp only [List.mem_cons, List.not_mem_nil, or_false] at hc
+    subst hc
+    exact ⟨TShape.n2 0 3 (by decide) (by decide), by simp, by simp⟩
+
+theorem ex_cargo_dom : ∀ c ∈ ex_cargo, L1Dom c := by
+  intro c hc
+  simp only [ex_cargo, List.mem_cons, List.not_mem_nil, or_false] at hc
+  rcases hc with rfl | rfl | rfl
+  · exact ⟨TShape.n3 1 2 3 (by decide) (by decide) (by decide), by simp, by simp⟩
+  · exact ⟨TShape.n2 1 4 (by decide) (by decide), by simp, by simp⟩
+  · exact ⟨TShape.nx 1 (by decide), by simp, by simp⟩
+
+/-- The rendered texts, and the token-level hypothesis on them (by evaluation of the tokeniser and `Parse`). -/
+example : renderNpm (ex_npm.map Alt.comps) = bs ">=1.2.3 <2 || ^0.3" ∧
+    renderCargo [.comps ex_cargo] = bs ">=1.2.3-rc.1,<1.4,1.x" := by
+  constructor <;> decide +kernel
+
+theorem ex_npm_lex : LexOr .npm ex_npm (Bytes.trimSpace (renderNpm (ex_npm.map Alt.comps))) ∧
+    Bytes.trimSpace (renderNpm (ex_npm.map Alt.comps)) ≠ [] :=
+  ⟨lexOr_of_b (by decide +kernel), by decide +kernel⟩
+
+theorem ex_cargo_lex : LexOr .cargo [ex_cargo] (Bytes.trimSpace (renderCargo [.comps ex_cargo])) ∧
+    Bytes.trimSpace (renderCargo [.comps ex_cargo]) ≠ [] :=
+  ⟨lexOr_of_b (by decide +kernel), by decide +kernel⟩
+
+/-- **String level, one concrete npm requirement, every release candidate**: on the rendered text
+`>=1.2.3 <2 || ^0.3` and the rendered text of any release candidate, `ParseConstraint`/`Match`
+give `semver.satisfies`. -/
+theorem ex_npm_string (x : SemVerAst) (hx : RelCand x) :
+    Agree .npm (renderNpm (ex_npm.map Alt.comps)) (renderVer x) (NpmRange.satisfies (ex_npm.map Alt.comps) x) ∧
+      NotRejected .npm (renderNpm (ex_npm.map Alt.comps)) :=
+  npm_release_tokens_partial ex_npm (by decide) (by decide) ex_npm_dom x hx _ _ ex_npm_lex.2 ex_npm_lex.1
+    (parse_renderVer_release .npm (Or.inl rfl) x hx)
+
+/-- **String level, one concrete Cargo requirement, every release candidate.** -/
+theorem ex_cargo_string (x : SemVerAst) (hx : RelCand x) :
+    Agree .cargo (renderCargo [.comps ex_cargo]) (renderVer x) (CargoReq.matches [.comps ex_cargo] x) ∧
+      NotRejected .cargo (renderCargo [.comps ex_cargo]) :=
+  cargo_release_tokens_partial ex_cargo (by decide) ex_cargo_dom (by decide) x hx _ _ ex_cargo_lex.2 ex_cargo_lex.1
+    (parse_renderVer_release .cargo (Or.inr rfl) x hx)
+
+/-- Hypotheses of the set-level theorems: two well-formed spans with tidy bounds (`>=1.2.3`, `<2`). -/
+example : ∃ s1 s2, compSpan .npm ⟨.ge, ⟨[.n 1, .n 2, .n 3], []⟩⟩ = .ok s1 ∧ compSpan .npm ⟨.lt, ⟨[.n 2], []⟩⟩ = .ok s2 ∧
+    Good .npm s1 ∧ Good .npm s2 := by
+  obtain ⟨s1, e1, g1, -⟩ := npm_compSpec ⟨.ge, ⟨[.n 1, .n 2, .n 3], []⟩⟩
+    ⟨TShape.n3 1 2 3 (by decide) (by decide) (by decide), by simp, by simp⟩
+    ⟨1, 5, 0, []⟩ ⟨rfl, by decide, by decide, by decide⟩
+  obtain ⟨s2, e2, g2, -⟩ := npm_compSpec ⟨.lt, ⟨[.n 2], []⟩⟩ ⟨TShape.n1 2 (by decide), by simp, by simp⟩
+    ⟨1, 5, 0, []⟩ ⟨rfl, by decide, by decide, by decide⟩
+  exact ⟨s1, s2, e1, e2, g1, g2⟩
 
 end DepsDev.Props.C03
